@@ -1241,6 +1241,58 @@ def eval_cmd(case):
     return {'verdict': verdict, 'wa': through(b.argument, case['wa']), 'wr': through(a.result, case['wr'])}
 
 
+def gen_cmdrebuild(rng):
+    """a command whose argument / result are annotated trees of the ten kinds (or None), with probes for both"""
+    def opt():
+        if rng.random() < 0.25:
+            return None, []
+        tree0 = dicodec.strip_cls(gen_di(rng, rng.choice([1, 2, 2, 3])))
+        tree = dicodec.dt_to_di(dicodec.di_to_dt(tree0))
+        return tree, gen_probes(rng, dicodec.erase(tree), 4)
+    (a, pa), (r, pr) = opt(), opt()
+    return {'k': 'cmdrebuild', 'arg': a, 'res': r, 'argprobes': pa, 'resprobes': pr}
+
+
+def eval_cmdrebuild(case):
+    """CommandType.export_datatype -> json round trip -> get_datatype, and CommandType.copy(): datainfo again, argument / result
+    of the derived command (trees, probes through the original's and the derived one's), objects shared with the original"""
+    from frappy.datatypes import CommandType, get_datatype
+    a = dicodec.di_to_dt(case['arg']) if case['arg'] is not None else None
+    r = dicodec.di_to_dt(case['res']) if case['res'] is not None else None
+    cmd = CommandType(a, r)
+    ex = _outcome(cmd.export_datatype)
+    impl = {}
+    for name, build in (('rebuild', lambda: get_datatype(jround(ex[1]))), ('copy', cmd.copy)):
+        o = {'built': False, 'datainfo': datainfo_json(ex[1]) if ex[0] == 'ok' else None, 'datainfo2': None, 'arg2': None, 'res2': None,
+             'argp': None, 'resp': None, 'shared': [], 'error': None}
+        impl[name] = o
+        d = _outcome(build) if ex[0] == 'ok' else ('other', 'export:' + str(ex[1]))
+        if d[0] != 'ok' or not isinstance(d[1], CommandType):
+            o['error'] = d[1] if d[0] != 'ok' else 'not-a-command:' + type(d[1]).__name__
+            if d[0] == 'bad':
+                o['error'] = 'bad'
+            continue
+        c2 = d[1]
+        o['built'] = True
+        ex2 = _outcome(c2.export_datatype)
+        if ex2[0] == 'ok':
+            o['datainfo2'] = datainfo_json(ex2[1])
+        for key, orig, der, probes in (('arg', a, c2.argument, case['argprobes']), ('res', r, c2.result, case['resprobes'])):
+            if der is None:
+                continue
+            try:
+                o[key + '2'] = dicodec.dt_to_di(der)
+            except Exception as e:
+                o[key + '2'] = {'other': 'unreadable:' + type(e).__name__}
+            o[key + 'p'] = [{'o': run_probe(orig, p), 'd': run_probe(der, p)} for p in probes] if orig is not None else []
+            if orig is not None:
+                wa, wb = walk(orig), walk(der)
+                o['shared'] += sorted(wa[i] for i in wa if i in wb)
+        if c2 is cmd:
+            o['shared'].append('datatype:CommandType')
+    return impl
+
+
 def show_cmd(c):
     return 'CommandType(%s, %s)' % (show(c['arg']) if c['arg'] is not None else None, show(c['res']) if c['res'] is not None else None)
 
@@ -1335,6 +1387,22 @@ def law_test(ctx, res):
                                   'impl': 'fails on this tuple (bit patterns m, s, x, y, rr, ar; integers lo, i, hi)'})
 
 
+def malformed_commands():
+    """descriptions of commands around the `command` entry of DATATYPES: absent / null / malformed argument and result, unknown
+    keys (must-ignore), the colliding key pname.  (A command as the argument of a command is accepted by the real table and not
+    modelled: `CmdInfo` holds value types.)"""
+    i, b, bad = {'type': 'int', 'min': 0, 'max': 5}, {'type': 'bool'}, {'type': 'int', 'min': 0}
+    out = [{'type': 'command'}, {'type': 'command', 'argument': None}, {'type': 'command', 'argument': None, 'result': None},
+           {'type': 'command', 'argument': i}, {'type': 'command', 'result': b}, {'type': 'command', 'argument': i, 'result': b},
+           {'type': 'command', 'argument': bad}, {'type': 'command', 'result': bad}, {'type': 'command', 'argument': 5},
+           {'type': 'command', 'argument': 'int'}, {'type': 'command', 'argument': [], 'result': b},
+           {'type': 'command', 'argument': ['int', {'min': 0, 'max': 5}]}, {'type': 'command', 'result': ['bool', {}]},
+           {'type': 'command', 'argument': i, 'description': 'x', '_custom': 1}, {'type': 'command', 'pname': 'x'},
+           {'type': 'command', 'members': i},
+           {'type': 'command', 'argument': {'type': 'struct', 'members': {'a': i, 'b': b}, 'optional': ['b']}, 'result': {'type': 'tuple', 'members': [i, b]}}]
+    return out
+
+
 def load_corpus(ctx):
     cases = []
     cdir = os.path.join(ctx.verif, 'corpus', 'C03')
@@ -1366,6 +1434,20 @@ def req_of(case):
     if k == 'cmdcompat':
         impl = eval_cmd(case)
         return {'p': 'C03', 'k': 'cmdcompat', 'a': case['a'], 'b': case['b'], 'impl': impl}, impl
+    if k == 'cmdrebuild':
+        impl = eval_cmdrebuild(case)
+        return {'p': 'C03', 'k': 'cmdrebuild', 'arg': case['arg'], 'res': case['res'], 'impl': impl}, impl
+    if k == 'getcmd':
+        from frappy.datatypes import CommandType, get_datatype
+        out = _outcome(lambda: get_datatype(jround(case['datainfo'])))
+        if out[0] == 'ok' and isinstance(out[1], CommandType):
+            try:
+                impl = {key: dicodec.dt_to_di(x) if x is not None else None for key, x in (('arg', out[1].argument), ('res', out[1].result))}
+            except Exception as e:
+                impl = {'other': 'unreadable:' + type(e).__name__}
+        else:
+            impl = 'bad' if out[0] == 'bad' else {'other': out[1] if out[0] != 'ok' else 'not-a-command'}
+        return {'p': 'C03', 'k': 'getcmd', 'json': dtcodec.py_to_json(case['datainfo'])}, impl
     if k == 'writable':
         impl = eval_writable(case)
         return {'p': 'C03', 'k': 'writable', 'value': case['value'], 'target': case['target']}, impl
@@ -1423,6 +1505,19 @@ def disagreement(case, impl, ans):
         if not tree_eq(m, impl):
             return {'get': (m, impl)}
         return None
+    if k == 'cmdrebuild':
+        diffs = {}
+        for name in ('rebuild', 'copy'):
+            o = impl[name]
+            if name == 'rebuild' and canon_model_json(m['datainfo']) != o['datainfo']:
+                diffs['datainfo'] = (m['datainfo'], o['datainfo'])
+            mt = m[name]
+            it = {'arg': o['arg2'], 'res': o['res2']} if o['built'] else ('bad' if o['error'] == 'bad' else {'other': str(o['error'])})
+            if not tree_eq(mt, it):
+                diffs[name] = (mt, it)
+        return diffs or None
+    if k == 'getcmd':
+        return None if tree_eq(m, impl) else {'getcmd': (m, impl)}
     if k in ('proxy', 'writable'):
         if m != impl:
             return {k: (m, impl)}
@@ -1482,6 +1577,8 @@ def unlimit(a, b):
 
 
 def signature(clause, case, impl=None):
+    if case['k'] == 'cmdrebuild':
+        return f'C03:command:{clause}'
     if case['k'] == 'cmdcompat':
         if clause == 'sound' and impl is not None:
             # attribution only: a refused argument / result that is one of the recorded findings of the pair it belongs to
@@ -1556,6 +1653,12 @@ def show(tree):
 
 
 def describe(case, impl):
+    if case['k'] == 'cmdrebuild':
+        which = 'copy' if impl['copy'] != impl['rebuild'] and (not impl['copy']['built'] or impl['copy']['shared']) else 'rebuild'
+        o = impl[which]
+        diff = [(json.dumps(p['o'])[:80], json.dumps(p['d'])[:80]) for p in (o['argp'] or []) + (o['resp'] or []) if p['o'] != p['d']][:2]
+        return (f"{show_cmd(case)}: datainfo {json.dumps(o['datainfo'])[:300]}; {which} -> "
+                f"{json.dumps(o['datainfo2'])[:300] if o['built'] else o['error']}; shared {o['shared']}; differing probes {diff}")
     if case['k'] == 'cmdcompat':
         bad = [repr(dtcodec.json_to_py(w['v'])) for w in impl['wa'] + impl['wr'] if not w['acc']][:3]
         return (f"{show_cmd(case['a'])}.compatible({show_cmd(case['b'])}) -> {json.dumps(impl['verdict'])}; arguments of the first "
@@ -1593,7 +1696,7 @@ def simpler_scaled(tree):
 
 def shrink(ctx, case, clause):
     """descend into the tree / pair while a smaller case fails the same clause"""
-    if case['k'] == 'cmdcompat':
+    if case['k'] in ('cmdcompat', 'cmdrebuild'):
         return case
     for _ in range(8):
         smaller = None
@@ -1740,6 +1843,13 @@ def run(ctx):
             continue
         cases.append(({'k': 'writable', 'value': b, 'target': a, 'mode': mode}, 'writable'))
 
+    for i in range(ctx.budget(300, 5000)):
+        try:
+            cases.append((gen_cmdrebuild(rng), 'command-rebuild'))
+        except Exception as e:
+            res.count('tree.refused:' + type(e).__name__)
+    for d_ in malformed_commands():
+        cases.append(({'k': 'getcmd', 'datainfo': d_}, 'get:command'))
     # re-test of the additional float laws on the region drawn (a test of the trusted base, not a proof)
     law_test(ctx, res)
 
@@ -1807,6 +1917,14 @@ def run(ctx):
                           ''.join('R' if x['res'] is not None else '-' for x in (c['a'], c['b'])))
                 res.count('command.nested=' + str(ans['nested']).lower() + ',verdict=' + v)
                 res.nontriv(c)
+            elif k == 'cmdrebuild':
+                res.traces += 1
+                res.count('command-rebuild.shape=' + ('A' if c['arg'] is not None else '-') + ('R' if c['res'] is not None else '-'))
+                res.count('command-rebuild.built=' + str(impl['rebuild']['built']).lower() + ',copy=' + str(impl['copy']['built']).lower())
+                res.count('command-rebuild.limits=' + ('grid-aligned' if ans.get('aligned') else 'not-aligned(description only)'))
+                res.nontriv(c)
+            elif k == 'getcmd':
+                res.count('get.command=' + ('command' if isinstance(impl, dict) and 'arg' in impl else 'bad' if impl == 'bad' else 'other'))
             elif k == 'writable':
                 res.count('writable=' + (impl if isinstance(impl, str) else 'other'))
                 res.nontriv(c)
@@ -1817,7 +1935,7 @@ def run(ctx):
             if ctx.model_ok:
                 d = disagreement(c, impl, ans)
                 if d:
-                    res.disagreements.append({'case': {kk: vv for kk, vv in c.items() if kk not in ('probes', 'witnesses')},
+                    res.disagreements.append({'case': {kk: vv for kk, vv in c.items() if kk not in ('probes', 'witnesses', 'argprobes', 'resprobes')},
                                               'model': {kk: vv[0] for kk, vv in d.items()},
                                               'impl': {kk: vv[1] for kk, vv in d.items()}})
             for clause in ans.get('judge', []):
@@ -1840,8 +1958,8 @@ def replay(ctx, rp):
         return 1 if case['law'] in ans['fail'][0] else 0
     req, impl = req_of(case)
     ans = ctx.driver.batch([req])[0]
-    print('case     :', json.dumps({k: v for k, v in case.items() if k not in ('probes', 'witnesses')})[:1500])
-    if case['k'] in ('rebuild', 'copy', 'compat', 'cmdcompat'):
+    print('case     :', json.dumps({k: v for k, v in case.items() if k not in ('probes', 'witnesses', 'argprobes', 'resprobes')})[:1500])
+    if case['k'] in ('rebuild', 'copy', 'compat', 'cmdcompat', 'cmdrebuild'):
         print('what     :', describe(case, impl))
     print('impl     :', json.dumps(impl)[:2000])
     print('model    :', json.dumps(ans.get('model'))[:2000])
